@@ -21,7 +21,7 @@ REQUIRED = {"eval.post": 100, "spy.obj": 100, "boundary_events": 1000,
             "soc_evals": 1}
 MIN_NONTRIVIAL = {"quick": 20, "thorough": 100}
 PLAN = [("lattice", 700, 12000), ("soc", 500, 9000), ("faulty", 200, 3000),
-        ("narrow", 200, 3000), ("cross", 300, 6000)]
+        ("narrow", 200, 3000), ("hugebox", 120, 1500), ("cross", 300, 6000)]
 
 
 def cases(tier, seed):
@@ -37,6 +37,12 @@ def make_spec(case):
     if fam == "faulty":
         return gen.general(rng, bound_patterns=gen.BOUND_PATTERNS,
                            with_faults=True, maxfev=(30, 100))
+    if fam == "hugebox":
+        spec = gen.general(rng, bound_patterns=("huge", "two", "huge",
+                                                "lower"),
+                           maxfev=(20, 60), opt_allow=("nb_points",))
+        spec["options"]["scale"] = bool(rng.random() < 0.7)
+        return spec
     if fam == "narrow":
         return gen.general(rng, bound_patterns=("narrow", "tiny", "two",
                                                 "nearfixed"),
